@@ -270,6 +270,9 @@ class EArr(numpy.ndarray):
                 (isinstance(key, numpy.ndarray) and not isinstance(key, EArr) and key.dtype == bool):
             raise Unsupported("boolean mask indexing (use a contract)")
         key = self._expand_key(key)
+        if self.ndim == 1 and isinstance(key[0], slice) and key[0].start is None and key[0].stop is None and key[0].step == -1:
+            base, tn = self._at, _t(self._shape[0])      # a[::-1] (read as a reversed copy; writes through are not modelled)
+            return EArr(self._shape, lambda i: base(tn - 1 - i), self._dt, mutable=False)
         is_arr = [isinstance(k, (numpy.ndarray, list)) for k in key]
         if not any(is_arr):
             return self._basic_get(key)
@@ -322,7 +325,6 @@ class EArr(numpy.ndarray):
         return v
 
     def _fancy_get(self, key, is_arr):
-        pos = [i for i, f in enumerate(key) if f or not isinstance(key[i], slice)]
         # advanced = arrays and scalars; must be adjacent
         adv = [i for i, k in enumerate(key) if not isinstance(k, slice)]
         if adv != list(range(adv[0], adv[-1] + 1)):
@@ -477,6 +479,20 @@ class EArr(numpy.ndarray):
         if impl is None:
             raise Unsupported("numpy.%s on element-level symbolic array" % func.__name__)
         return impl(*args, **kwargs)
+
+    def argsort(self, axis=-1, kind=None, **kw):
+        from . import npmodel
+        return npmodel.el_argsort(self, axis=axis)
+
+    def cumsum(self, axis=None, **kw):
+        from . import npmodel
+        return npmodel.el_cumsum(self, axis=axis)
+
+    def reshape(self, *shape, **kw):
+        from . import npmodel
+        if len(shape) == 1 and isinstance(shape[0], (tuple, list)):
+            shape = tuple(shape[0])
+        return npmodel.el_reshape(self, shape)
 
     # ---- reductions used as methods
     def sum(self, axis=None, **kw):
